@@ -57,6 +57,8 @@ func c02exec(c *h.Ctx, cs *h.Case) {
 		i, _ := strconv.Atoi(s)
 		return nodes[i-10].ID, true
 	}
+	scr := false
+	wireSI := "" // "w<k>": the sender filled the ServerIdentity field of the wire message with server k's identity
 	inject := func(ty int, sender, peer string, v int) {
 		var from *onet.Token
 		if id, ok := nodeID(sender); ok {
@@ -80,6 +82,11 @@ func c02exec(c *h.Ctx, cs *h.Case) {
 		env, err := fix.Envelope(si, from, to, fix.Payload(ty, v))
 		if err != nil {
 			panic(err)
+		}
+		if wireSI != "" {
+			k, _ := strconv.Atoi(wireSI[1:])
+			env.Msg.(*onet.ProtocolMsg).ServerIdentity = f.cl.SI(k)
+			wireSI = ""
 		}
 		f.cl.Overlay(ct.srv).Process(env)
 	}
@@ -144,7 +151,10 @@ func c02exec(c *h.Ctx, cs *h.Case) {
 		case (len(tk) == 6 || len(tk) == 7) && tk[1] == "cfg":
 			k, _ := strconv.Atoi(tk[4])
 			isRoot = tk[3] == "-"
-			if len(tk) == 7 {
+			scr = len(tk) == 7 && tk[6] == "scrambled-index"
+			if scr {
+				ct = f.scrambled(isRoot, k, true)
+			} else if len(tk) == 7 {
 				// a tree the receiver has never seen: same servers and shape over a re-ordered roster
 				ct = f.unknownTree(isRoot, k, rand.New(rand.NewSource(c.Seed*1000003+atomic.AddInt64(&c02unknown, 1))))
 				parked = true
@@ -199,9 +209,16 @@ func c02exec(c *h.Ctx, cs *h.Case) {
 		case len(tk) == 2 && tk[1] == "rereg":
 			// an equal copy of the tree replaces the stored Tree object
 			k := len(ct.target.Children)
-			f.cl.Overlay(ct.srv).RegisterTree(f.freshCopy(isRoot, k))
+			if scr {
+				f.cl.Overlay(ct.srv).RegisterTree(f.scrambled(isRoot, k, false).t)
+			} else {
+				f.cl.Overlay(ct.srv).RegisterTree(f.freshCopy(isRoot, k))
+			}
 			cs.Impl = append(cs.Impl, "ok")
-		case len(tk) == 6 && tk[1] == "msg":
+		case (len(tk) == 6 || len(tk) == 7) && tk[1] == "msg":
+			if len(tk) == 7 {
+				wireSI = tk[6]
+			}
 			ty, _ := strconv.Atoi(tk[2])
 			v, _ := strconv.Atoi(tk[5])
 			bad := tk[3] == "-" || tk[3] == "90" || tk[3] == "99"
@@ -345,6 +362,47 @@ func c02gen(c *h.Ctx, yield func(*h.Case)) {
 			}
 		}
 	}
+	// the same table on trees whose nodes carry a RosterIndex pointing at another member, and with the
+	// ServerIdentity field of the wire message filled in by the sender with the identity it claims
+	for _, root := range []bool{false, true} {
+		for _, k := range []int{2, 3} {
+			for _, ty := range []int{1, 3} {
+				for _, s := range senders(root, k) {
+					for _, p := range peers(root, k) {
+						for variant := 0; variant < 2; variant++ {
+							if r.Intn(c.Pick(3, 1)) != 0 {
+								continue
+							}
+							cs := &h.Case{Class: "table scrambled-index"}
+							op := cfg(root, k) + " scrambled-index"
+							w := ""
+							if variant == 1 {
+								cs.Class = "table wire-identity"
+								op = cfg(root, k)
+								w = " w0"
+								if si, err := strconv.Atoi(s); err == nil && si >= 10 && si < 90 {
+									w = fmt.Sprintf(" w%d", si-10) // the identity hosting the claimed node
+								}
+							}
+							cs.Ops = append(cs.Ops, op)
+							val++
+							cs.Ops = append(cs.Ops, fmt.Sprintf("c02 msg %d %s %s %d%s", ty, s, p, val, w))
+							first := 2
+							if root {
+								first = 1
+							}
+							for i := 0; i < k; i++ {
+								val++
+								cs.Ops = append(cs.Ops, fmt.Sprintf("c02 msg %d %d %d %d", ty, 10+first+i, first+i, val))
+							}
+							c.Count("class=" + cs.Class)
+							yield(cs)
+						}
+					}
+				}
+			}
+		}
+	}
 	// the receiver learns the tree only after the envelopes arrived: they are parked, then flushed
 	for _, root := range []bool{false, true} {
 		for _, k := range []int{1, 2} {
@@ -382,7 +440,11 @@ func c02gen(c *h.Ctx, yield func(*h.Case)) {
 		root := r.Intn(2) == 0
 		k := 1 + r.Intn(c.Pick(6, 8))
 		cs := &h.Case{Class: "random"}
-		cs.Ops = append(cs.Ops, cfg(root, k))
+		if r.Intn(4) == 0 {
+			cs.Ops = append(cs.Ops, cfg(root, k)+" scrambled-index")
+		} else {
+			cs.Ops = append(cs.Ops, cfg(root, k))
+		}
 		ss, ps := senders(root, k), peers(root, k)
 		for j := 0; j < 4+r.Intn(5*k); j++ {
 			val++
@@ -396,7 +458,11 @@ func c02gen(c *h.Ctx, yield func(*h.Case)) {
 				si, _ := strconv.Atoi(s)
 				p = strconv.Itoa(si - 10)
 			}
-			cs.Ops = append(cs.Ops, fmt.Sprintf("c02 msg %d %s %s %d", 1+r.Intn(4), s, p, val))
+			w := ""
+			if r.Intn(5) == 0 {
+				w = fmt.Sprintf(" w%d", r.Intn(k+1))
+			}
+			cs.Ops = append(cs.Ops, fmt.Sprintf("c02 msg %d %s %s %d%s", 1+r.Intn(4), s, p, val, w))
 		}
 		c.Count("class=random")
 		yield(cs)
